@@ -4,7 +4,8 @@
 (* thread (phase granularity), of the environment, of Crash and of the       *)
 (* phases of NewCircuitMap.                                                  *)
 EXTENDS CircuitMap, Json
-CONSTANTS MaxLen, CloseAfter, CrashEvery
+CONSTANTS MaxLen, CloseAfter, CrashEvery,
+          Thin   \* thin the argument sets (simulation); FALSE = all arguments (witness search)
 VARIABLE hist
 
 B(x) == IF x THEN 1 ELSE 0
@@ -23,16 +24,19 @@ Less(a, b) == a[1] < b[1] \/ (a[1] = b[1] /\ a[2] < b[2])
 HalfOpen == {p.in : p \in {q \in pending : q.out = None}}
 NextKey(k) == LET later == {x \in InKeys : Less(k, x)} IN
               IF later = {} THEN k ELSE CHOOSE x \in later : \A y \in later : x = y \/ Less(x, y)
-Sometimes(n) == Len(hist) % n = 0
-GCommit == {b \in Batches : b[1] = Pivot /\ (Len(b) = 2 => b[2] \in {Pivot, NextKey(Pivot)})}
-GDelete == {b \in Batches : /\ Injective(b)
-                            /\ b[1] \in PendKeys \cup {Pivot}
-                            /\ Len(b) = 2 => (b[2] \in PendKeys /\ Less(b[1], b[2]) /\ Sometimes(2))}
-GOpen(c) == {ks \in OpenBatches(c) : (\A j \in DOMAIN ks : ks[j][1] \in HalfOpen) \/
-                                     (Len(ks) = 1 /\ ks[1][1] = Pivot /\ Sometimes(4))}
-GDup == {ks \in DupBatches : ks[1][1] \in HalfOpen /\ Sometimes(3)}
-GClose == {o[1] : o \in opened} \cup (IF Sometimes(5) THEN {<<Min(OutChans), 0>>} ELSE {})
-GFail == (PendKeys \ closed) \cup (IF Sometimes(4) THEN {Pivot} ELSE {})
+Sometimes(n) == ~Thin \/ Len(hist) % n = 0
+GCommit == IF ~Thin THEN Batches
+           ELSE {b \in Batches : b[1] = Pivot /\ (Len(b) >= 2 => b[2] \in {Pivot, NextKey(Pivot)})}
+GDelete == IF ~Thin THEN {b \in Batches : Injective(b)}
+           ELSE {b \in Batches : /\ Injective(b)
+                                 /\ b[1] \in PendKeys \cup {Pivot}
+                                 /\ Len(b) >= 2 => (b[2] \in PendKeys /\ Less(b[1], b[2]) /\ Sometimes(2))}
+GOpen(c) == IF ~Thin THEN OpenBatches(c)
+            ELSE {ks \in OpenBatches(c) : (\A j \in DOMAIN ks : ks[j][1] \in HalfOpen) \/
+                                          (Len(ks) = 1 /\ ks[1][1] = Pivot /\ Sometimes(4))}
+GDup == IF ~Thin THEN DupBatches ELSE {ks \in DupBatches : ks[1][1] \in HalfOpen /\ Sometimes(3)}
+GClose == IF ~Thin THEN OutKeys ELSE {o[1] : o \in opened} \cup (IF Sometimes(5) THEN {<<Min(OutChans), 0>>} ELSE {})
+GFail == IF ~Thin THEN InKeys ELSE (PendKeys \ closed) \cup (IF Sometimes(4) THEN {Pivot} ELSE {})
 \* crashes are spread over the behaviour, failing start-up transactions are the rarer choice
 GCrashOk == Len(hist) >= CrashEvery * (ncrash + 1)
 GStartOk(ok) == ok \/ Sometimes(3)
@@ -71,10 +75,15 @@ GSpec == GInit /\ [][GNext]_<<vars, hist>>
 Dump == (Len(hist) = MaxLen) =>
           ndJsonSerialize("b_" \o ToString(TLCGet("stats").traces) \o ".ndjson", hist)
 
-\* Witness search (exhaustive, VIEW without hist): the first state that breaks the property is
-\* dumped with the schedule that leads to it.
+\* Witness search (exhaustive BFS, VIEW without hist, Thin = FALSE, no-op calls skipped): the first
+\* state that breaks the targeted part of the property is dumped with the schedule that leads to it.
 GView == <<dAdds, dKeys, pending, opened, closed, mode, trimTodo, thr, closedChans, resMsgs,
            nextIdx, addsCount, respCount, snap, fresh, nops, ncrash, nfail>>
-Holds == AtMostOnceForward /\ AtMostOneResponse /\ RestartExact /\ MemDiskAgree /\ OpenedConsistent
-Witness == Holds \/ ~ndJsonSerialize("witness.ndjson", hist)
+gcore == <<dAdds, dKeys, pending, opened, closed, mode, trimTodo, thr, closedChans, resMsgs,
+           nextIdx, addsCount, respCount, ncrash, nfail>>
+WSpec == GInit /\ [][GNext /\ gcore' # gcore]_<<vars, hist>>
+Found(holds) == holds \/ ~ndJsonSerialize("witness.ndjson", hist)
+WitnessForward == Found(AtMostOnceForward)
+WitnessRestart == Found(RestartExact)
+WitnessAgree   == Found(MemDiskAgree)
 =============================================================================
